@@ -295,7 +295,9 @@ theorem lmCore_lit (text : List Nat) (c : Nat) (alt : LmAlt) (hne : alt.literal 
 theorem lmCore_set (text : List Nat) (c : Nat) (alt : LmAlt) (S : Nat → Bool) (hi j : Nat)
     (hl : alt.literal = []) (hs : alt.set = some S) (hmin : 0 < alt.minRepeat) (hmax : alt.maxRepeat = (hi : Int))
     (h1 : alt.minRepeat ≤ j) (h2 : j ≤ hi) (hrun : ∀ i, i < j → memAt S text (c + i) = true) :
-    ∃ e', lmCore text c alt = some e' ∧ c + alt.minRepeat ≤ e' := by
+    ∃ e', lmCore text c alt = some e' ∧ c + alt.minRepeat ≤ e' ∧
+      (alt.reqAfter = true → c + j < text.length → optMemAt alt.trailWs text (c + j) = true →
+        e' < text.length ∧ optMemAt alt.trailWs text e' = true) := by
   have hjn : c + j ≤ text.length := by
     have := memAt_lt S text (c + (j - 1)) (hrun (j - 1) (by omega))
     omega
@@ -308,7 +310,23 @@ theorem lmCore_set (text : List Nat) (c : Nat) (alt : LmAlt) (S : Nat → Bool) 
   simp only [hl, List.isEmpty_nil, Bool.not_true, Bool.false_eq_true, if_false, hs, hmin, if_true, hmr]
   have hnot : ¬ (runOf S text c hi (text.length + 1) c - c < alt.minRepeat) := by omega
   rw [if_neg hnot]
-  exact ⟨_, rfl, by omega⟩
+  by_cases hgb : (alt.reqAfter && alt.trailWs.isSome) = true
+  · rw [if_pos hgb]
+    obtain ⟨g1, g2, g3, g4⟩ := giveBack_spec alt.trailWs text c alt.minRepeat (runOf S text c hi (text.length + 1) c) (by omega)
+    refine ⟨_, rfl, g1, ?_⟩
+    intro _ hz1 hz2
+    have hz := g3 (c + j) (by omega) hcov hz1 hz2
+    rcases g4 with heq | hw
+    · have : giveBack alt.trailWs text c alt.minRepeat (runOf S text c hi (text.length + 1) c) = c + j := by omega
+      rw [this]; exact ⟨hz1, hz2⟩
+    · exact hw
+  · rw [if_neg hgb]
+    refine ⟨_, rfl, by omega, ?_⟩
+    intro hreq _ hz2
+    exfalso
+    simp only [Bool.and_eq_true, hreq, true_and, Bool.not_eq_true, Option.isSome_eq_false_iff, Option.isNone_iff_eq_none] at hgb
+    rw [hgb] at hz2
+    simp [optMemAt] at hz2
 
 /-! ### the parse of one alternative -/
 
@@ -455,14 +473,14 @@ theorem altOf_sound (e : Env) (p : Pat) (a : SymAlt) (h : altOf p = some a) (st 
           have := t3.2 0 (by omega)
           simp only [Nat.add_zero] at this
           exact ⟨memAt_lt _ _ _ this, by simpa [SymAlt.toLm, halt, hl, optMemAt] using this⟩
+      have ha : a = ⟨r1.1, core, (takeLoop items2).1⟩ := by
+        injection h with h; exact h.symm
+      obtain ⟨l1, l2⟩ := hlead a (by rw [ha])
       rcases coreOf_cases r1.2 core items2 hco with ⟨c0, w, hlr, rfl⟩ | ⟨P, hitems, rfl⟩ | ⟨lz, lo, hi, P, hitems, hlo, hlohi, rfl⟩
       · -- literal core
-        have ha : a = ⟨r1.1, .lit (c0 :: w), (takeLoop items2).1⟩ := by
-          cases htl : (takeLoop items2).1 <;> simp [htl] at h <;> exact h.symm
         obtain ⟨o1, o2⟩ := litRun_reach e r1.2 c st'.pos hc2
         rw [hlr] at o1 o2
         simp only [] at o1 o2
-        obtain ⟨l1, l2⟩ := hlead a (by rw [ha])
         obtain ⟨t1, t2⟩ := htrail _ o2 a (by rw [ha])
         have hlit : (a.toLm e).literal = c0 :: w := by rw [ha]; rfl
         have hcore := lmCore_lit e.text c (a.toLm e) (by rw [hlit]; simp) (by rw [hlit]; exact o1)
@@ -471,54 +489,40 @@ theorem altOf_sound (e : Env) (p : Pat) (a : SymAlt) (h : altOf p = some a) (st 
         have : (a.toLm e).minWidth = (c0 :: w).length := by simp [LmAlt.minWidth, hlit]
         rw [this]; exact t1
       · -- one set character
-        have ha : a = ⟨r1.1, .set P 1 1, (takeLoop items2).1⟩ ∧ ((a.toLm e).reqAfter = false) := by
-          cases htl : (takeLoop items2).1 with
-          | none => simp [htl] at h; subst h; exact ⟨rfl, by simp [SymAlt.toLm, htl]⟩
-          | some l =>
-            obtain ⟨Q, lo2⟩ := l
-            simp only [htl] at h
-            by_cases hl0 : 0 < lo2
-            · rw [if_pos hl0] at h; simp at h
-            · rw [if_neg hl0] at h
-              injection h with h; subst h
-              exact ⟨rfl, by simp [SymAlt.toLm, htl]; omega⟩
         rw [hitems] at hc2
         obtain ⟨s1, s2, q1, q2, q3⟩ := hc2
         obtain ⟨k1, k2⟩ := chr_step e P s1 s2 q2
-        obtain ⟨l1, l2⟩ := hlead a (by rw [ha.1])
-        have hfw := reach_fwd e _ _ _ q3
-        obtain ⟨e', hcore, hge⟩ := lmCore_set e.text c (a.toLm e) (P.test e) 1 1
-          (by rw [ha.1]; rfl) (by rw [ha.1]; rfl) (by rw [ha.1]; simp [SymAlt.toLm]) (by rw [ha.1]; rfl)
-          (by rw [ha.1]; simp [SymAlt.toLm]) (Nat.le_refl _)
+        obtain ⟨t1, t2⟩ := htrail _ q3 a (by rw [ha])
+        obtain ⟨e', hcore, hge, hafter⟩ := lmCore_set e.text c (a.toLm e) (P.test e) 1 1
+          (by rw [ha]; rfl) (by rw [ha]; rfl) (by rw [ha]; simp [SymAlt.toLm]) (by rw [ha]; rfl)
+          (by rw [ha]; simp [SymAlt.toLm]) (Nat.le_refl _)
           (by intro i hi; have : i = 0 := by omega
               subst this; rw [← q1]; simpa using k1)
-        refine ⟨c, hc1, l1, lmAltMatch_isSome e.text c _ e' l2 hcore (by rw [ha.2]; simp), ?_⟩
-        have : (a.toLm e).minWidth = 1 := by rw [ha.1]; simp [LmAlt.minWidth, SymAlt.toLm]
-        rw [this]; omega
+        have hpos : s2.pos = c + 1 := by omega
+        refine ⟨c, hc1, l1, lmAltMatch_isSome e.text c _ e' l2 hcore ?_, ?_⟩
+        · intro hreq
+          obtain ⟨u1, u2⟩ := t2 hreq
+          rw [hpos] at u1 u2
+          exact hafter hreq u1 u2
+        · have : (a.toLm e).minWidth = 1 := by rw [ha]; simp [LmAlt.minWidth, SymAlt.toLm]
+          rw [this]; omega
       · -- bounded set loop
-        have ha : a = ⟨r1.1, .set P lo hi, (takeLoop items2).1⟩ ∧ ((a.toLm e).reqAfter = false) := by
-          cases htl : (takeLoop items2).1 with
-          | none => simp [htl] at h; subst h; exact ⟨rfl, by simp [SymAlt.toLm, htl]⟩
-          | some l =>
-            obtain ⟨Q, lo2⟩ := l
-            simp only [htl] at h
-            by_cases hl0 : 0 < lo2
-            · rw [if_pos hl0] at h; simp at h
-            · rw [if_neg hl0] at h
-              injection h with h; subst h
-              exact ⟨rfl, by simp [SymAlt.toLm, htl]; omega⟩
         rw [hitems] at hc2
         obtain ⟨s1, s2, q1, q2, q3⟩ := hc2
         obtain ⟨j, j1, j2, j3, j4⟩ := loop_run e lz lo (some hi) P s1 s2 q2
-        obtain ⟨l1, l2⟩ := hlead a (by rw [ha.1])
-        have hfw := reach_fwd e _ _ _ q3
-        obtain ⟨e', hcore, hge⟩ := lmCore_set e.text c (a.toLm e) (P.test e) hi j
-          (by rw [ha.1]; rfl) (by rw [ha.1]; rfl) (by rw [ha.1]; simpa [SymAlt.toLm] using hlo) (by rw [ha.1]; rfl)
-          (by rw [ha.1]; simpa [SymAlt.toLm] using j1) (j2 hi rfl)
+        obtain ⟨t1, t2⟩ := htrail _ q3 a (by rw [ha])
+        obtain ⟨e', hcore, hge, hafter⟩ := lmCore_set e.text c (a.toLm e) (P.test e) hi j
+          (by rw [ha]; rfl) (by rw [ha]; rfl) (by rw [ha]; simpa [SymAlt.toLm] using hlo) (by rw [ha]; rfl)
+          (by rw [ha]; simpa [SymAlt.toLm] using j1) (j2 hi rfl)
           (by intro i hi'; rw [← q1]; exact j4 i hi')
-        refine ⟨c, hc1, l1, lmAltMatch_isSome e.text c _ e' l2 hcore (by rw [ha.2]; simp), ?_⟩
-        have : (a.toLm e).minWidth = lo := by rw [ha.1]; simp [LmAlt.minWidth, SymAlt.toLm]
-        rw [this]; omega
+        have hpos : s2.pos = c + j := by omega
+        refine ⟨c, hc1, l1, lmAltMatch_isSome e.text c _ e' l2 hcore ?_, ?_⟩
+        · intro hreq
+          obtain ⟨u1, u2⟩ := t2 hreq
+          rw [hpos] at u1 u2
+          exact hafter hreq u1 u2
+        · have : (a.toLm e).minWidth = lo := by rw [ha]; simp [LmAlt.minWidth, SymAlt.toLm]
+          rw [this]; omega
 
 /-! ### landmarks, the chain -/
 
